@@ -269,11 +269,11 @@ def locate_lambda_body(relpath, scopes, func, marker):
     return Located(relpath, 0, 0, hdr, body, l0, l1, outer.body[op + 1:cp])
 
 
-def locate_expr(relpath, scopes, func, start_rx, occurrence=0, in_header=False):
+def locate_expr(relpath, scopes, func, start_rx, occurrence=0, in_header=False, params_hint=None):
     """A balanced call expression starting at regex start_rx (which must end
     right before '(') inside function func (body, or header for ctor
     mem-initialisers).  Used for the allocation-size expressions."""
-    outer = locate(relpath, scopes, func)
+    outer = locate(relpath, scopes, func, 0, params_hint)
     text = outer.header if in_header else outer.body
     blank = blank_preprocessor(blank_comments_and_strings(text))
     ms = list(re.finditer(start_rx, blank))
@@ -603,6 +603,29 @@ def r_sizeof_decltype(text):
                 end = k + 1
             text = text[:m.start()] + "__typeof__(" + inner + ")" + text[end:]
             count += 1
+    return text, count
+
+
+def r_byref_return(text):
+    """R20: `return E;` in a function whose C++ return type is a reference -> `return &(E);`"""
+    count = 0
+    rx = re.compile(r"\breturn\b")
+    pos = 0
+    while True:
+        m = rx.search(text, pos)
+        if not m:
+            break
+        k = m.end()
+        while k < len(text):
+            if text[k] in "([{":
+                k = match_close(text, k)
+            elif text[k] == ";":
+                break
+            k += 1
+        expr = text[m.end():k].strip()
+        text = text[:m.start()] + "return &(" + expr + ")" + text[k:]
+        pos = m.start() + len("return &(") + len(expr)
+        count += 1
     return text, count
 
 
